@@ -150,21 +150,30 @@ func runScenarioOnce(self, work string, raw []byte, deadline time.Duration, idx 
 			}
 		}
 		f.Close()
-		// a ReqIssued line is only kept (as the Req line, delivered) when the process died before
-		// it could write the handler's verdict
+		// The request is a fact from the moment it is issued (ReqIssued, written before the handler runs); its
+		// verdict (Req, written when the handler has returned) takes that place in the record: what the device
+		// process wrote in between (it appends to the file on its own) is a consequence of the request.  If the
+		// executor died before the verdict could be written, the request was delivered.
+		skip := map[int]bool{}
 		for i, m := range recorded {
+			if skip[i] {
+				continue
+			}
 			if m["ev"] != "ReqIssued" {
 				add(m)
 				continue
 			}
-			answered := false
-			for _, n := range recorded[i+1:] {
-				if n["ev"] == "Req" {
-					answered = true
+			verdict := -1
+			for k := i + 1; k < len(recorded); k++ {
+				if recorded[k]["ev"] == "Req" {
+					verdict = k
 					break
 				}
 			}
-			if !answered {
+			if verdict >= 0 {
+				add(recorded[verdict])
+				skip[verdict] = true
+			} else {
 				m["ev"] = "Req"
 				m["delivered"] = true
 				add(m)
